@@ -1,2 +1,71 @@
-import NrDaemon.Model.Proc
-/-! C04 — theorems (see DESIGN.md §6). -/
+import NrDaemon.Lemmas.Proc
+/-!
+  C04 — applications are isolated from each other.
+-/
+open Gen.Limits
+
+/-- **C04 (data under an unknown, stale or foreign-but-absent run id is dropped).** -/
+theorem C04_unknown_dropped (s : PState) (r : String) (t : TxnM) (h : getRun s r = none) :
+    processTxn s r t = s := by
+  simp [processTxn, h]
+
+/-- **C04 (frame): a transaction for one run leaves every other run's harvest untouched.** -/
+theorem C04_txn_frame (s : PState) (r r' : String) (t : TxnM) (hne : r' ≠ r) :
+    getRun (processTxn s r t) r' = getRun s r' := by
+  unfold processTxn
+  split
+  · rfl
+  · next run hrun =>
+    dsimp only
+    split
+    · exact getRun_setRun_ne s r r' _ hne
+    · rw [getRun_setApp]; exact getRun_setRun_ne s r r' _ hne
+
+/-- **C04 (every request made by a harvest carries the harvested application's own parameters).**  For the
+event categories, default data and the all-at-once harvest alike: run id, license key, collector host, request
+headers and agent language of each emitted request are those captured from the harvested application. -/
+theorem C04_request_params (s : PState) (a : HArgs) (l : List (Cat × Payload)) :
+    ∀ r ∈ (considerMany s a l).2,
+      r.run = a.run ∧ r.license = a.license ∧ r.collector = a.collector ∧ r.hdr = a.hdr ∧ r.lang = a.lang :=
+  fun r hr => (considerMany_from s a l r hr).1
+
+/-- … and contains exactly one of the detached containers of that harvest (never another run's data) -/
+theorem C04_request_payload (s : PState) (a : HArgs) (l : List (Cat × Payload)) :
+    ∀ r ∈ (considerMany s a l).2, (r.cat, r.payload) ∈ l :=
+  fun r hr => (considerMany_from s a l r hr).2
+
+/-- the arguments `doHarvest` builds come from the harvested application only -/
+theorem C04_args_from_app (s : PState) (runId : String) (run : RunM) (app : AppM) (cfg : RunCfg)
+    (ha : getApp s run.app = some app) (hr : app.reply = some cfg)
+    (hact : ¬ (s.appTimeout > 0 ∧ s.now - app.lastActivity ≥ s.appTimeout)) (mask : Nat) :
+    doHarvest s runId run mask =
+      (let a : HArgs := { run := runId, license := app.cfg.license, collector := app.collector, hdr := cfg.hdr,
+                          lang := app.cfg.lang, rules := cfg.rules, split := app.cfg.dt, maxPayload := cfg.maxPayload, group := 0 }
+       let (s', reqs) := harvestByType s runId run app cfg mask a
+       let gid := s'.nextGroup - 1
+       let (s'', more) := if s'.groups.any (fun g => g.id == gid && g.outstanding == 0) then settleGroup s' gid else (s', [])
+       (s'', reqs ++ more)) := by
+  have hc : (decide (s.appTimeout > 0) && decide (s.now - app.lastActivity ≥ s.appTimeout)) = false := by
+    by_cases h1 : s.appTimeout > 0 <;> by_cases h2 : s.now - app.lastActivity ≥ s.appTimeout <;> simp_all
+  simp only [doHarvest, ha, hc, hr]
+  rfl
+
+/-- the data-usage request of a harvest group also carries that harvest's own parameters -/
+theorem C04_data_usage_params (s : PState) (gid : Nat) :
+    ∀ r ∈ (settleGroup s gid).2, ∃ g ∈ s.groups, g.id = gid ∧ r.run = g.run ∧ r.license = g.license ∧
+      r.collector = g.collector ∧ r.hdr = g.hdr := by
+  intro r hr
+  unfold settleGroup at hr
+  split at hr
+  · simp at hr
+  · next g hg =>
+    split at hr
+    · simp at hr
+    · dsimp only at hr
+      split at hr
+      · simp at hr
+      · simp only [List.mem_singleton] at hr
+        subst hr
+        have hmem := List.mem_of_find?_eq_some hg
+        have hid := List.find?_some hg
+        exact ⟨g, hmem, by simpa using hid, rfl, rfl, rfl, rfl⟩
